@@ -41,10 +41,16 @@ type scenario struct {
 	// value to o0, o1, ... in consecutive instructions (a processor whose output selector is wider than its input
 	// selector). K is MultiOut.
 	MultiOut int `json:"multi_out,omitempty"`
+	// Halt > 0 (simulator only): the consumers are programs that END: Halt reads `i2rw r0 i0` (one nop between two
+	// reads), then Tail more instructions, then the program runs off its last instruction (the simulator halts such
+	// a processor; the generated ROM wraps around instead, so there is no HDL counterpart). The producer goes on
+	// offering values: it must stay blocked in its IO instruction for ever once the consumers are gone.
+	Halt int `json:"halt,omitempty"`
+	Tail int `json:"tail,omitempty"`
 }
 
 func (sc scenario) pcRecv() uint64 {
-	if sc.Tight > 0 {
+	if sc.Tight > 0 || sc.Halt > 0 {
 		return 0
 	}
 	return 2
@@ -57,7 +63,7 @@ func (sc scenario) nin() int {
 	if sc.MultiOut > 0 {
 		return 1 + sc.MultiOut
 	}
-	if sc.Tight > 0 {
+	if sc.Tight > 0 || sc.Halt > 0 {
 		return 1
 	}
 	return 1 + sc.K
@@ -109,7 +115,7 @@ func (sc scenario) system() bmsys.System {
 	})
 	sys.ExtIn = sc.nin()
 	sys.Bonds = append(sys.Bonds, [2]string{"p0i0", "i0"})
-	for c := 1; c <= sc.K && sc.Tight > 0; c++ {
+	for c := 1; c <= sc.K && sc.Tight > 0 && sc.Halt == 0; c++ {
 		prog := []string{"i2rw r0 i0"}
 		for i := 1; i < sc.Tight; i++ {
 			prog = append(prog, "nop")
@@ -118,7 +124,11 @@ func (sc scenario) system() bmsys.System {
 		sys.Procs = append(sys.Procs, bmsys.Proc{Spec: bmgen.ArchSpec{Rsize: 8, R: 2, N: 1, M: 0, O: 3, Ops: []string{"i2rw", "nop", "j"}}, Program: prog})
 		sys.Bonds = append(sys.Bonds, [2]string{fmt.Sprintf("p%di0", c), "p0o0"})
 	}
-	for c := 1; c <= sc.K && sc.Tight == 0; c++ {
+	for c := 1; c <= sc.K && sc.Halt > 0; c++ {
+		sys.Procs = append(sys.Procs, bmsys.Proc{Spec: bmgen.ArchSpec{Rsize: 8, R: 2, N: 1, M: 0, O: 3, Ops: []string{"i2rw", "nop", "j"}}, Program: sc.haltProgram()})
+		sys.Bonds = append(sys.Bonds, [2]string{fmt.Sprintf("p%di0", c), "p0o0"})
+	}
+	for c := 1; c <= sc.K && sc.Tight == 0 && sc.Halt == 0; c++ {
 		ops := []string{"i2r", "jz", "i2rw", "nop", "j"}
 		prog := []string{"i2r r2 i1", "jz r2 0", "i2rw r0 i0", "nop", "j 0"}
 		if sc.Double {
@@ -133,6 +143,20 @@ func (sc scenario) system() bmsys.System {
 		sys.Bonds = append(sys.Bonds, [2]string{fmt.Sprintf("p%di0", c), "p0o0"})
 	}
 	return sys
+}
+
+func (sc scenario) haltProgram() []string {
+	var prog []string
+	for r := 0; r < sc.Halt; r++ {
+		if r > 0 {
+			prog = append(prog, "nop")
+		}
+		prog = append(prog, "i2rw r0 i0")
+	}
+	for i := 0; i < sc.Tail; i++ {
+		prog = append(prog, "nop")
+	}
+	return prog
 }
 
 const pcSend = 3 // producer's IO instruction
@@ -206,6 +230,9 @@ func monitor(sc scenario, g *ghost, before, after obs) (evs []event, progress bo
 		}
 		if before.pc[c] == pcRecv && after.pc[c] == pcRecv+1 {
 			recvEvent(after.r0[c], "i2rw#1")
+		}
+		if sc.Halt > 0 && before.pc[c] > 0 && before.pc[c]%2 == 0 && before.pc[c] < uint64(2*sc.Halt) && after.pc[c] == before.pc[c]+1 {
+			recvEvent(after.r0[c], fmt.Sprintf("i2rw#%d", before.pc[c]/2+1))
 		}
 		if sc.Double && before.pc[c] == pcRecv+1 && after.pc[c] == pcRecv+2 {
 			recvEvent(after.r3[c], "i2rw#2")
@@ -502,6 +529,21 @@ func explore(sc scenario, backend string, maxStates int) outcome {
 		rev := make([][]int32, n)
 		good := make([]bool, n)
 		var queue []int32
+		if sc.Halt > 0 {
+			// a state in which every consumer has run off the end of its program is a legitimate end of all transfers
+			end := uint64(len(sc.haltProgram()))
+			for i := 0; i < n; i++ {
+				o := ex.StateOf(i).o
+				all := true
+				for c := 1; c <= sc.K; c++ {
+					all = all && o.pc[c] >= end
+				}
+				if all {
+					good[i] = true
+					queue = append(queue, int32(i))
+				}
+			}
+		}
 		for from, es := range ex.Graph {
 			for _, e := range es {
 				rev[e.To] = append(rev[e.To], int32(from))
@@ -592,6 +634,17 @@ func main() {
 	for _, sc := range scs {
 		jobs = append(jobs, job{sc, "hdl"}, job{sc, "sim"})
 	}
+	// simulator only: consumers whose program ends (the simulator halts a processor that runs off its last instruction)
+	for reads := 1; reads <= 2; reads++ {
+		for tail := 0; tail <= 3; tail++ {
+			for k := 1; k <= 2; k++ {
+				if k == 2 && !run.Thorough() && (reads > 1 || tail > 1) {
+					continue
+				}
+				jobs = append(jobs, job{scenario{Name: fmt.Sprintf("r2owa-i2rw-halting-reads%d-tail%d-k%d", reads, tail, k), SendOp: "r2owa", K: k, Halt: reads, Tail: tail}, "sim"})
+			}
+		}
+	}
 	// simulator only: per-opcode delay assignments (the simulator's own notion of processor speed)
 	delayOps := []string{"i2rw", "r2owa", "nop", "j", "add", "jz", "i2r"}
 	delayVals := []int32{1, 2, 3, 4, 5, 7}
@@ -662,6 +715,9 @@ func main() {
 		}
 		if o.sc.Tight > 0 {
 			shape = fmt.Sprintf("loop-gap-%d", o.sc.Tight)
+		}
+		if o.sc.Halt > 0 {
+			shape = fmt.Sprintf("program-ends-%d-after-last-of-%d-reads", o.sc.Tail, o.sc.Halt)
 		}
 		if len(o.sc.Delays) > 0 {
 			shape += ",opcode-delays"
